@@ -60,7 +60,10 @@ func zzSymbolicProgram(m *procbuilder.Machine, tag string, nwords int) {
 			m.Program.Slocs[i] = s
 		} else {
 			// the rest of the ROM: jump to 0 (programs of nwords instructions in a loop)
-			line, _ := m.Arch.Assembler_process_line([]byte("j 0"))
+			line, err := m.Arch.Assembler_process_line([]byte("j 0"))
+			if err != nil || len(line) != w {
+				zzUnsupported("cannot assemble the filler instruction 'j 0'")
+			}
 			m.Program.Slocs[i] = line
 		}
 	}
